@@ -36,6 +36,7 @@ def units(ctx):
         for iv in range(-100, 101):
             yield ("seq4", iv)
     yield from hist.hist_units()
+    yield ("long", 0)
 
 
 def _alpha(ctx):
@@ -46,6 +47,13 @@ HIST_IVS = [1, -1, 2, 12, -13, 40, -40, 87]
 
 
 def gen_cases(unit, ctx):
+    if unit[0] == "long":
+        for n in (16, 48, 120):
+            for base in (23, 60, 102):
+                ns = lib.long_desc(n, base, (ctx["ch"], ctx["ch"] + 1, 9), 12, lens=(12, 6, 24, 12))
+                for iv in (0, 1, -1, 5, 12, -13, 40, -40, 87, 100, -100):
+                    yield {"notes": [list(x) for x in ns], "key": "Eb", "bar": False, "iv": iv, "long": True}
+        return
     if unit[0] == "hist":
         for h in hist.hist_of_unit(unit):
             for iv in HIST_IVS:
@@ -99,7 +107,7 @@ def check_case(case, ctx):
     else:
         notes = case["notes"]
         events = [("ks", 0, key)] if key else []
-        s = lib.seq_abs(notes, events, dur=24)
+        s = lib.seq_abs(notes, events, dur=24 if not case.get("long") else None)
     obj = s
     bar = None
     if case["bar"]:
